@@ -2,6 +2,7 @@ package main
 
 import (
 	"fmt"
+	"go/constant"
 	"go/token"
 	"go/types"
 	"os"
@@ -639,6 +640,10 @@ func (f *frame) guards(b *ssa.BasicBlock) (bool, bool) {
 		v := cond
 		if u, ok := v.(*ssa.UnOp); ok && u.Op == token.NOT {
 			v, taken = u.X, !taken
+		}
+		// a boolean computed beforehand (`ok := !(splat || ctx.DontAutoCreate)`): what its value says about the flag
+		if _, isPhi := v.(*ssa.Phi); isPhi && boolImpliesFlagDown(v, taken, 0) {
+			ac = true
 		}
 		// load of X.DontAutoCreate where X is a Context
 		switch x := v.(type) {
@@ -1809,6 +1814,69 @@ func typeReaches(t types.Type, stName string, seen map[types.Type]bool, d int) b
 		return true // anything can hide behind an interface (list elements, Preferences)
 	case *types.Signature:
 		return false
+	}
+	return false
+}
+
+// isContextFlagLoad: v is a read of <Context>.DontAutoCreate.
+func isContextFlagLoad(v ssa.Value) bool {
+	switch x := v.(type) {
+	case *ssa.UnOp:
+		if fa, ok := x.X.(*ssa.FieldAddr); ok && x.Op == token.MUL && fieldName(fa) == "DontAutoCreate" && structNameOfPtr(fa.X.Type()) == "Context" {
+			return true
+		}
+	case *ssa.Field:
+		return fieldNameOfField(x) == "DontAutoCreate" && namedTypeName(x.X.Type()) == "Context"
+	}
+	return false
+}
+
+// boolImpliesFlagDown: knowing that the boolean v evaluated to val, the context's
+// DontAutoCreate flag is known to be false. v may be the flag itself, a negation,
+// or the phi go/ssa builds for `a || b || c` / `a && b`: an incoming constant that
+// differs from val rules its edge out; for every remaining edge either the
+// incoming value settles it or the branch conditions on the way to that edge do.
+func boolImpliesFlagDown(v ssa.Value, val bool, d int) bool {
+	if d > 6 {
+		return false
+	}
+	if isContextFlagLoad(v) {
+		return !val
+	}
+	switch x := v.(type) {
+	case *ssa.UnOp:
+		if x.Op == token.NOT {
+			return boolImpliesFlagDown(x.X, !val, d+1)
+		}
+	case *ssa.Phi:
+		any := false
+		for i, e := range x.Edges {
+			if k, ok := e.(*ssa.Const); ok && k.Value != nil && k.Value.Kind() == constant.Bool {
+				if constant.BoolVal(k.Value) != val {
+					continue // this edge cannot have produced val
+				}
+				// the constant arrived because an earlier operand decided: the conditions on the way say which
+			}
+			any = true
+			if boolImpliesFlagDown(e, val, d+1) {
+				continue
+			}
+			settled := false
+			pred := x.Block().Preds[i]
+			edgeConds(pred, x.Block())(func(cond ssa.Value, taken bool, at *ssa.BasicBlock) {
+				c := cond
+				if u, ok := c.(*ssa.UnOp); ok && u.Op == token.NOT {
+					c, taken = u.X, !taken
+				}
+				if isContextFlagLoad(c) && !taken {
+					settled = true
+				}
+			})
+			if !settled {
+				return false
+			}
+		}
+		return any
 	}
 	return false
 }
